@@ -1318,3 +1318,117 @@ Lemma K2_changes_cut_points :
     = [ {| cp_ordinal := 2; cp_to_seq := 2; cp_already := true; cp_latest := Some 3 |};
         {| cp_ordinal := 1; cp_to_seq := 1; cp_already := true; cp_latest := Some 4 |} ].
 Proof. split; vm_compute; reflexivity. Qed.
+
+(* ------------------------------------------------------------------ cut points: ordinal index + checkpoint sidecar *)
+(* ¬K3: the complete records of the index are a prefix of the projection, all of it when aligned *)
+Definition OrdFaithful (l : log) (ord : ofile) : Prop :=
+  match ord with
+  | OFile recs torn => exists rest, msg_seqs l = recs ++ rest /\ (torn = 0 -> rest = [])
+  | _ => True
+  end.
+
+Lemma valid_nth_seq : forall l b p f, contiguous_from b l = true -> nth_error l p = Some f -> fseq f = b + N.of_nat p.
+Proof.
+  induction l as [|x r IH]; intros b p f H Hn; [destruct p; discriminate|].
+  cbn [contiguous_from] in H. apply andb_true_iff in H. destruct H as [Hx Hr]. apply N.eqb_eq in Hx.
+  destruct p as [|p]; cbn [nth_error] in Hn.
+  - inversion Hn; subst. lia.
+  - rewrite (IH _ _ _ Hr Hn). lia.
+Qed.
+
+Lemma frame_at_message l sq j m m' :
+  valid_log l = true -> frame_at l sq = Some m' ->
+  nth_error (messages l) j = Some m -> fseq m = sq -> m' = m.
+Proof.
+  intros Hv Hf Hm Hs. unfold frame_at in Hf.
+  pose proof (valid_nth_seq l 0 _ _ Hv Hf) as Hseq. rewrite N2Nat.id in Hseq.
+  apply (valid_seq_inj l Hv).
+  - exact (nth_error_In _ _ Hf).
+  - apply nth_error_In in Hm. unfold messages in Hm. apply filter_In in Hm. tauto.
+  - lia.
+Qed.
+
+Lemma nth_error_prefix {B} (a rest : list B) j x : nth_error a j = Some x -> nth_error (a ++ rest) j = Some x.
+Proof. intros H. rewrite nth_error_app1; [exact H | apply nth_error_Some; congruence]. Qed.
+
+(* the message the ordinal index names is the message the truth path takes *)
+Lemma by_ordinal_faithful l ord known k m' :
+  valid_log l = true -> OrdFaithful l ord -> 0 < k ->
+  match ord_by_ordinal ord known k with OSome sq => frame_at l sq | _ => None end = Some m' ->
+  nth_error (messages l) (N.to_nat (k - 1)) = Some m'.
+Proof.
+  intros Hv Hof Hk H. destruct ord as [| | |recs torn]; cbn [ord_by_ordinal] in H; try discriminate.
+  destruct (k =? 0) eqn:E0; [discriminate|].
+  destruct (nth_error recs (N.to_nat (k - 1))) as [sq|] eqn:En; [|discriminate].
+  destruct (known sq); [|discriminate].
+  cbn [OrdFaithful] in Hof. destruct Hof as [rest [Hpre _]].
+  pose proof (nth_error_prefix recs rest _ _ En) as Hn. rewrite <- Hpre in Hn. unfold msg_seqs in Hn.
+  rewrite nth_error_map in Hn. destruct (nth_error (messages l) (N.to_nat (k - 1))) as [m|] eqn:Em; [|discriminate].
+  cbn in Hn. inversion Hn as [Hs]. f_equal. symmetry. exact (frame_at_message l sq _ m m' Hv H Em Hs).
+Qed.
+
+Lemma ord_count_faithful l ord n :
+  OrdFaithful l ord -> ord_count ord (mr_last_of l) = OSome n -> n = nlen (messages l).
+Proof.
+  intros Hof H. destruct (ord_count_accepts _ _ _ H) as [recs [last [Hf [_ [Hn _]]]]]. subst ord n.
+  cbn [OrdFaithful] in Hof. destruct Hof as [rest [Hpre Hr]]. rewrite (Hr eq_refl), app_nil_r in Hpre.
+  unfold nlen. rewrite <- Hpre. unfold msg_seqs. rewrite map_length. reflexivity.
+Qed.
+
+Lemma cut_points_ord_loop me mb comp full l ord known stride latest :
+  valid_log l = true -> log_lens_pos l = true -> FullFaithful l full -> CompFaithful l comp full -> OrdFaithful l ord ->
+  forall n rp ld i,
+  cut_points_ord_from me mb comp full l ord known stride latest i rp ld n = cut_points_from l stride latest i n.
+Proof.
+  intros Hv Hp Hff Hcf Hof. pose proof (replay_faithful l full Hv Hff) as Hrp.
+  induction n as [|n IH]; intros rp ld i; [reflexivity|].
+  cbn [cut_points_ord_from cut_points_from].
+  set (ordinal := latest - i * stride).
+  destruct (ordinal =? 0) eqn:E0; [reflexivity|]. apply N.eqb_neq in E0.
+  rewrite Hrp.
+  destruct (match ord_by_ordinal ord known ordinal with OSome sq => frame_at l sq | _ => None end) as [m'|] eqn:Eb.
+  - assert (Hk : 0 < ordinal) by lia.
+    pose proof (by_ordinal_faithful l ord known ordinal m' Hv Hof Hk Eb) as Hm.
+    rewrite (cut_point_at_mk l _ m' Hm).
+    pose proof (ckpt_lookup_faithful me mb comp full l rp (fseq m') Hv Hp Hff Hcf) as Hbest.
+    destruct (ckpt_lookup me mb comp full l rp (fseq m')) as [best rp']. cbn [fst] in Hbest. subst best.
+    f_equal. apply IH.
+  - destruct (nth_error (messages l) (N.to_nat (ordinal - 1))) as [m|] eqn:En.
+    + rewrite (cut_point_at_mk l _ m En).
+      pose proof (ckpt_lookup_faithful me mb comp full l true (fseq m) Hv Hp Hff Hcf) as Hbest.
+      destruct (ckpt_lookup me mb comp full l true (fseq m)) as [best rp']. cbn [fst] in Hbest. subst best.
+      f_equal. apply IH.
+    + unfold cut_point_at. rewrite En. apply IH.
+Qed.
+
+Theorem cut_points_ord_eq_truth me mb comp full l ord known stride limit :
+  valid_log l = true -> log_lens_pos l = true -> FullFaithful l full -> CompFaithful l comp full -> OrdFaithful l ord ->
+  cut_points_ord me mb comp full l ord known stride limit = cut_points_truth l stride limit.
+Proof.
+  intros Hv Hp Hff Hcf Hof. unfold cut_points_ord, cut_points_truth.
+  pose proof (replay_faithful l full Hv Hff) as Hrp.
+  destruct (ord_count ord (mr_last_of l)) as [| |n0] eqn:Ec.
+  - rewrite Hrp. f_equal. destruct (nlen (messages l) / stride * stride =? 0); [reflexivity|].
+    apply cut_points_ord_loop; assumption.
+  - rewrite Hrp. f_equal. destruct (nlen (messages l) / stride * stride =? 0); [reflexivity|].
+    apply cut_points_ord_loop; assumption.
+  - rewrite (ord_count_faithful l ord n0 Hof Ec). f_equal.
+    destruct (nlen (messages l) / stride * stride =? 0); [reflexivity|].
+    apply cut_points_ord_loop; assumption.
+Qed.
+
+(* K3 changes cut points: index [1;5] of a thread with messages 1,3,5 (last record right, middle one lost) *)
+Definition wlog5 : log :=
+  [wf0; {| fseq := 1; flen := 8; fb := BMessage |}; {| fseq := 2; flen := 8; fb := BOther |};
+   {| fseq := 3; flen := 8; fb := BMessage |}; {| fseq := 4; flen := 8; fb := BOther |}; {| fseq := 5; flen := 8; fb := BMessage |}].
+Lemma K3_changes_cut_points :
+  valid_log wlog5 = true /\ ~ OrdFaithful wlog5 (OFile [1; 5] 0)
+  /\ fst (cut_points_ord 100 1000 None (Some (project_full wlog5)) wlog5 (OFile [1; 5] 0) (fun _ => true) 1 4) = 2
+  /\ map cp_to_seq (snd (cut_points_ord 100 1000 None (Some (project_full wlog5)) wlog5 (OFile [1; 5] 0) (fun _ => true) 1 4)) = [5; 1]
+  /\ fst (cut_points_truth wlog5 1 4) = 3
+  /\ map cp_to_seq (snd (cut_points_truth wlog5 1 4)) = [5; 3; 1].
+Proof.
+  split; [reflexivity|]. split.
+  - cbn [OrdFaithful]. intros [rest [H Hr]]. rewrite (Hr eq_refl), app_nil_r in H. vm_compute in H. discriminate.
+  - repeat split; vm_compute; reflexivity.
+Qed.
